@@ -525,10 +525,19 @@ impl<H: Hal, T: Transport> VirtIOSound<H, T> {
         // The next element of `statuses` and `tokens` to use for popping the queue.
         let mut tail = 0;
 
+        // Set once the device has reported an error for some period. No more periods are queued
+        // after that, but the ones already queued are still waited for, as they refer to `frames`
+        // and `statuses`.
+        let mut failed = false;
+
         loop {
             // Add as buffers to the TX queue if possible. 3 descriptors are required for the 2
             // input buffers and 1 output buffer.
-            if self.tx_queue.available_desc() >= 3 {
+            if failed {
+                if head == tail {
+                    break;
+                }
+            } else if self.tx_queue.available_desc() >= 3 {
                 if let Some(buffer) = remaining_buffers.next() {
                     // SAFETY: The buffers being added to the queue are non-empty and are not
                     // accessed before the corresponding call to `pop_used`.
@@ -562,7 +571,7 @@ impl<H: Hal, T: Transport> VirtIOSound<H, T> {
                     )?;
                 }
                 if statuses[tail].status != CommandCode::SOk.into() {
-                    return Err(Error::IoError);
+                    failed = true;
                 }
                 tail += 1;
                 if tail >= usize::from(QUEUE_SIZE) {
@@ -577,7 +586,7 @@ impl<H: Hal, T: Transport> VirtIOSound<H, T> {
             });
         }
 
-        Ok(())
+        if failed { Err(Error::IoError) } else { Ok(()) }
     }
 
     /// Transfer PCM frame to device, based on the stream type(OUTPUT/INPUT).
